@@ -124,8 +124,8 @@ def run(ck):
         return out
     long_s = dedup(sims.printed())[: (300 if quick else 4000)]
     long_v = dedup(simv.printed())[: (300 if quick else 4000)]
-    script_h = s3 + (ck.rng.sample(s4, 6000) if quick else s4) + long_s
-    solver_h = v3 + (ck.rng.sample(v4, 6000) if quick else v4) + long_v
+    script_h = s3 + (ck.rng.sample(s4, min(len(s4), 6000)) if quick else s4) + long_s
+    solver_h = v3 + (ck.rng.sample(v4, min(len(v4), 6000)) if quick else v4) + long_v
     evs = []
     eid = 0
     # ---- scripts: parse the text of the whole history, read every prefix
